@@ -388,3 +388,55 @@ def contracts():
     c = _c11.parameter_init_contract()
     c.prop = "C14"
     return _c14_base4() + [c]
+
+
+# ---------------------------------------------------------------------------------------------
+# Parameters.__getitem__ — `obj.param[name]` is the instance-level Parameter for EVERY instance
+# ---------------------------------------------------------------------------------------------
+def param_getitem_contract():
+    """`obj.param[name]` on an instance goes through `_instantiated_parameter(inst, class Parameter)`
+    whatever the instance's truth value is (an empty container-like Parameterized is still an instance);
+    `Cls.param[name]` is the class Parameter.  `edit_constant` re-locks the object this returns."""
+    def configure(I):
+        def objects(I, st, fv, args, kwargs, ctx):
+            return [(st, st.ghost["K"])]
+        I.contracts["Parameters.objects"] = objects
+
+        def clsp(I, st, fv, args, kwargs, ctx):
+            return [(st, st.ghost["K"])]
+        I.contracts["Parameters._cls_parameters"] = clsp
+
+        def inst_param(I, st, fv, args, kwargs, ctx):
+            st.ghost["instantiated"] = st.ghost.get("instantiated", []) + [(args[0], I.term(args[1]))]
+            return [(st, Sym(I.U.fresh("instance_level_parameter")))]
+        I.contracts["_instantiated_parameter"] = inst_param
+
+    def setup(I, st):
+        U = I.U
+        inst = Sym(U.fresh("instance"))                 # an arbitrary object: its truth value is unknown
+        st.pc.append(inst.t != U.NONE)
+        par = I.alloc_obj(st, "Parameters", lazy=False, label="obj.param")
+        st.heap[par.oid].fields.update({"cls": ClsV("Parameterized"), "self": inst})
+        K = I.alloc_dict(st, keys=U.fresh_seq("names"), vals=z3.Const("class_parameters", z3.ArraySort(vm.V, vm.V)))
+        st.ghost["K"] = K
+        key = Sym(U.fresh("key"))
+        st.pc.append(z3.Contains(st.heap[K.oid].keys, z3.Unit(key.t)))
+        fv = I.bound_method(par, I.src.find_method("Parameters", "__getitem__"))
+        return fv, [key], {}, {"inst": inst, "cp": z3.Select(st.heap[K.oid].vals, key.t), "symbols": {}}
+
+    def post(I, info, st, oc):
+        if isinstance(oc, Raise):
+            return [("does-not-raise", z3.BoolVal(False))]
+        calls = st.ghost.get("instantiated", [])
+        return [("on an instance — whatever its truth value — the instance-level Parameter is returned",
+                 z3.BoolVal(len(calls) == 1 and calls[0][0] is info["inst"])),
+                ("… instantiated from the class Parameter of that name", calls[0][1] == info["cp"] if calls else z3.BoolVal(False))]
+    return FunctionContract("param.parameterized:Parameters.__getitem__", "C14", setup, post, configure=configure,
+                            name="Parameters.__getitem__[instance of unknown truth value]")
+
+
+_c14_base5 = contracts
+
+
+def contracts():
+    return _c14_base5() + [param_getitem_contract()]
